@@ -40,6 +40,7 @@ def case_strategy(max_ops=25):
         "path": st.sampled_from(build.BUILD_PATHS),
         "pre": st.lists(ops.op_strategy(names + ["enter", "enter"], weights), max_size=8),
         "how": st.sampled_from(["copy", "copy", "deepcopy", "pickle"]),
+        "nest": st.sampled_from([0, 0, 0, 1, 2]),
         "edits": st.one_of(st.lists(st.tuples(st.sampled_from(["orig", "copy", "copy"]), ops.op_strategy(names, weights)), min_size=1, max_size=max_ops),
                            st.lists(st.tuples(st.sampled_from(["orig", "copy", "copy"]), ops.op_strategy(names, weights)), min_size=8, max_size=max_ops)),
         "obj_ops": st.lists(st.tuples(st.sampled_from(["rcopy", "mcopy", "gcopy", "add", "sub", "mul", "radd", "sum1", "add0", "mul1"]), st.integers(0, 20), st.integers(0, 20),
@@ -154,6 +155,16 @@ def check_case(case, ctx):
     classes = {f"how-{case['how']}", f"solver-{case['spec']['solver']}"}
     if wa.depth():
         classes.add("~context-open-at-copy")
+    if case.get("nest") and len(wa.model.groups) and not wa.depth():
+        # a group that contains another group, listed before it (since seeded change C12-9)
+        from cobra.core import Group
+
+        child = wa.model.groups[case["nest"] % len(wa.model.groups)]
+        if "parent_grp" not in wa.model.groups:
+            wa.model.remove_groups([child])
+            extra = list(wa.model.reactions[:1])
+            wa.model.add_groups([Group("parent_grp", name="nested", members=[child] + extra, kind="partonomy"), child])
+            classes.add("~nested-groups")
     n_obj = check_object_ops(wa.model, case["obj_ops"])
     if n_obj:
         classes.add("~object-ops")
